@@ -2,11 +2,12 @@
 # tools/run_seed.sh <seed-id> <check-id>... : apply seeded/<seed-id>/patch.diff to a scratch worktree
 # of /repo (outside /repo and /verif), run the given checks against it (ANTHEM_REPO), record the
 # outcome in seeded/<seed-id>/detection.log, and remove the worktree with its build output.
+# VERIF_SEED_BASE=<commit of /repo> applies the patch to that commit instead of HEAD.
 set -u
 S="$1"; shift
 V="$(cd "$(dirname "$0")/.." && pwd)"
 W="/var/tmp/verif-seed-$S-$$"
-git -C /repo worktree add -q --detach "$W" HEAD || exit 2
+git -C /repo worktree add -q --detach "$W" "${VERIF_SEED_BASE:-HEAD}" || exit 2
 trap 'git -C /repo worktree remove --force "$W" >/dev/null 2>&1; rm -rf "$W"' EXIT
 git -C "$W" apply "$V/seeded/$S/patch.diff" || { echo "patch does not apply"; exit 2; }
 for C in "$@"; do
